@@ -294,7 +294,7 @@ def evaluate_empty(plan, ctx):
 
 
 SUBCHECKS = [
-    SubCheck("neighbourhood", strategy, evaluate, quick=5000, thorough=100000),
+    SubCheck("neighbourhood", strategy, evaluate, quick=8000, thorough=100000),
     SubCheck("empty", empty_strategy, evaluate_empty, quick=600, thorough=6000),
 ]
 KNOWN = {}
